@@ -38,6 +38,8 @@ def c09_jobs(tier, seed):
     j += miri("w_lockfree", "c09 --kind robust --off 2", 2 if q else 8, s, seed, M1)
     j += miri("w_lockfree", "c09 --kind plain --off 2", 1 if q else 4, s, seed, M2, first=10)
     j += miri("w_lockfree", "c09 --kind pool --off 2", 1 if q else 4, s, seed, M2, first=20)
+    # owner dies inside acquire / release of the robust set: every atomic-operation death point, then recover
+    j += [Job("dbg", "w_lockfree", "c09 --part midop", timeout=600, engine="atomic-op death points")]
     return j
 
 
@@ -267,7 +269,7 @@ PROPS = {
         "level": "exploration",
         "jobs": c09_jobs,
         "miri_full": miri_full,
-        "rule": "random 2-3 thread acquire/release/lock-if-last/abandon/recover programs on UniqueIndexSet, RobustUniqueIndexSet and bb-memory PoolAllocator (capacity 1-4); each program is executed with the hook off, under every depth-1 stall plan (each hooked atomic operation x m in {1,2,4,all}), sampled depth-2 plans and random delays, natively (debug, release), under TSan and under Miri. An execution is non-trivial when operations of different threads overlapped in time; distinct = distinct (program, interleaving signature, result sequence).",
+        "rule": "death inside an operation (c09 --part midop, exhaustive): an acquire, a release and a release(LockIfLastIndex) of the robust set under a dead owner id are cut off before each of their atomic operations (the atomics hook unwinds out of the call), then the dead owner is recovered: the recovery never returns a live owner's index, afterwards borrowed_indices() counts only the live owner's, the live owner can take exactly the remaining indices, the set is locked only if the interrupted call was the lock-if-last release of the last index; rule index_held_after_lock: after a release returned Locked nobody holds an index, however an acquire raced with the lock (tiny two/three-thread programs, all same-thread double-stall plans); random 2-3 thread acquire/release/lock-if-last/abandon/recover programs on UniqueIndexSet, RobustUniqueIndexSet and bb-memory PoolAllocator (capacity 1-4); each program is executed with the hook off, under every depth-1 stall plan (each hooked atomic operation x m in {1,2,4,all}), sampled depth-2 plans and random delays, natively (debug, release), under TSan and under Miri. An execution is non-trivial when operations of different threads overlapped in time; distinct = distinct (program, interleaving signature, result sequence).",
         "assumptions": COMMON_ASSUMPTIONS + ["RobustUniqueIndexSet promises exclusivity but no happens-before between owners: it is judged by atomic owner tags, not by plain canaries"],
         "floor": (2000, 200),
     },
